@@ -123,7 +123,7 @@ theorem rupLoop_spec : ∀ (f : Nat) (buf : Bytes) (ri : RI) (s : St),
       simp only [dataOf_nil, List.flatten_cons, List.flatten_nil, List.append_nil] at hbytes
       have hblen : 0 < b.length := List.length_pos_iff.mpr hbne
       -- recursive call facts
-      have hrec := ih (buf ++ b) { ri with got := ri.got + b.length } s2 hmax (by omega) (hfr.wf hwf)
+      have hrec := ih (buf ++ b) { ri with got := ri.got + b.length, started := true } s2 hmax (by omega) (hfr.wf hwf)
         (by rw [hfr.chunk]; exact hc)
       cases hpr : s2.prompt with
       | none =>
